@@ -415,3 +415,80 @@ def describe(exc):
     frames = traceback.extract_tb(exc.__traceback__)
     where = ' <- '.join(f'{os.path.basename(f.filename)}:{f.lineno}:{f.name}' for f in frames[-3:][::-1])
     return f'{type(exc).__name__}: {str(exc).strip().splitlines()[-1][:160] if str(exc).strip() else ""} at {where}'
+
+# --------------------------------------------------------------------------- values from a pristine process
+
+_PRISTINE_CHILD = r"""
+import json, os, sys
+job, res = sys.argv[1], sys.argv[2]
+from vp import core, wb
+core.assert_pycel_from_repo()
+import pycel  # noqa
+specs = json.load(open(job))
+out = []
+for k, item in enumerate(specs):
+    part = f'{res}.{k}'
+    pid = os.fork()
+    if pid == 0:
+        try:
+            vals = wb.fresh_values(item['spec'], item.get('addresses'), plugins=item.get('plugins'))
+            data = {a: [o[0], wb.norm(o[1]) if o[0] == 'v' else o[1]] for a, o in vals.items()}
+            json.dump(data, open(part, 'w'))
+        finally:
+            os._exit(0)
+    os.waitpid(pid, 0)
+    out.append(json.load(open(part)) if os.path.exists(part) else None)
+json.dump(out, open(res, 'w'))
+os._exit(0)
+"""
+
+
+def _untuple(x):
+    return tuple(_untuple(v) for v in x) if isinstance(x, list) else x
+
+
+def pristine_outcomes(items, tmpdir, timeout=180):
+    """[{address: (kind, normalised value | exception name)}] of the cells of each item['spec'], computed by
+    a fresh compile in a process that has never touched another workbook (one forked child per item; the parent
+    has only imported pycel).  What a long-lived process computes for the same workbook must be the same:
+    state that outlives a workbook (class attributes, module caches) shows as a difference."""
+    import json
+    import subprocess
+    import sys
+    from vp import core
+    job, res = os.path.join(tmpdir, 'pristine-job.json'), os.path.join(tmpdir, 'pristine-res.json')
+    with open(job, 'w') as f:
+        json.dump(items, f)
+    if os.path.exists(res):
+        os.remove(res)
+    r = subprocess.run([sys.executable, '-X', 'faulthandler', '-c', _PRISTINE_CHILD, job, res],
+                       env=core.check_env(), capture_output=True, text=True, timeout=timeout)
+    if not os.path.exists(res):
+        raise RuntimeError(f'pristine child failed: {r.stderr[-800:]}')
+    with open(res) as f:
+        data = json.load(f)
+    return [None if d is None else {a: (o[0], _untuple(o[1])) for a, o in d.items()} for d in data]
+
+
+def same_as_pristine(outcome, pristine, rel=1e-9):
+    """an in-process outcome against a pristine_outcomes() entry (already normalised)"""
+    if outcome[0] != pristine[0]:
+        return False
+    if outcome[0] == 'x':
+        return outcome[1] == pristine[1]
+    return _same(norm(outcome[1]), pristine[1], rel)
+
+
+def denorm(n):
+    """the Excel scalar of a normalised value (see norm)"""
+    kind = n[0]
+    if kind == 'arr':
+        return tuple(denorm(x) for x in n[1:])
+    if kind == 'blank':
+        return None
+    if kind == 'nan':
+        return float('nan')
+    if kind == 'n':
+        return int(n[1]) if float(n[1]).is_integer() and abs(n[1]) < 2 ** 53 else n[1]
+    return n[1]
+
